@@ -11,6 +11,7 @@ import (
 	"hash/fnv"
 	"math"
 	"math/big"
+	"strconv"
 	"strings"
 	"sync"
 
@@ -239,6 +240,23 @@ func anchorOrigin(ao int) interface{} {
 	}
 }
 
+// timeOffset (flag -toffset): every time of the model (anchorFrom / anchorUntil where set, every anchoring time) is moved up by
+// this much - an order-preserving map, so every verdict of the model stays what it is. With 2^53 the times are whole
+// numbers that a double does not hold exactly.
+var timeOffset uint64
+
+// (anchoring times: all of them, 0 included - the anchoring time 0 is a time like any other; a signed bound of 0 is
+// "not set" and stays)
+func offT(t uint64) uint64 { return t + timeOffset }
+
+func unoffT(t uint64) uint64 {
+	if timeOffset > 0 && t >= timeOffset {
+		return t - timeOffset
+	}
+
+	return t
+}
+
 func canonRef(ref int) string {
 	if ref == 0 {
 		return ""
@@ -365,7 +383,7 @@ func (c *Concretizer) anchored(o *ROp, req []byte) *operation.AnchoredOperation 
 		Type:                 operation.Type(o.Type),
 		UniqueSuffix:         testSuffix,
 		OperationRequest:     req,
-		TransactionTime:      o.T,
+		TransactionTime:      offT(o.T),
 		TransactionNumber:    o.N,
 		ProtocolVersion:      o.Pv,
 		CanonicalReference:   canonRef(o.Ref),
@@ -655,12 +673,26 @@ func (c *Concretizer) buildRequest(o *ROp, variant int) ([]byte, int) {
 
 	signed := map[string]interface{}{keyName: jwkMap(jwk)}
 
+	// (moved-up times are written digit for digit after canonicalization: a canonical number is a double, and these are
+	// whole numbers that a double does not hold - a request is what its bytes say, canonical or not)
+	exactTimes := map[string]string{}
+
 	if o.From != 0 {
 		signed["anchorFrom"] = o.From
+
+		if timeOffset > 0 {
+			signed["anchorFrom"] = "@@anchorFrom@@"
+			exactTimes[`"@@anchorFrom@@"`] = strconv.FormatInt(o.From+int64(timeOffset), 10)
+		}
 	}
 
 	if o.Until != 0 {
 		signed["anchorUntil"] = o.Until
+
+		if timeOffset > 0 {
+			signed["anchorUntil"] = "@@anchorUntil@@"
+			exactTimes[`"@@anchorUntil@@"`] = strconv.FormatInt(o.Until+int64(timeOffset), 10)
+		}
 	}
 
 	reqSuffix := testSuffix
@@ -716,6 +748,10 @@ func (c *Concretizer) buildRequest(o *ROp, variant int) ([]byte, int) {
 	}
 
 	payload := refJCSSimple(signed)
+	for mark, digits := range exactTimes {
+		payload = bytes.Replace(payload, []byte(mark), []byte(digits), 1)
+	}
+
 	if o.Wf == "payloadjson" {
 		payload = []byte("this is not json")
 	}
